@@ -115,6 +115,22 @@ func TestYAMLEmitter(t *testing.T) {
 	}
 }
 
+func TestJSONSafeForYAML(t *testing.T) {
+	for _, d := range []string{`{"a":1,"b":[true,null,"x"]}`, `"\u00e9\n"`, `[1,2,3]`, `"caf\u00e9 \u65e5\u672c"`} {
+		d = strings.ReplaceAll(d, `\u00e9`, "\u00e9")
+		d = strings.ReplaceAll(d, `\u65e5\u672c`, "\u65e5\u672c")
+		d = strings.ReplaceAll(d, `\n`, "")
+		if !jsonSafeForYAML(d) {
+			t.Errorf("%q rejected", d)
+		}
+	}
+	for _, d := range []string{"\"\uffff\"", "\"\ufffe\"", "\"\u0080\"", "\"\x7f\"", "\"\u2028\"", "\"\U0001F600\"", `{"a":1,"a":2}`, `1.5`, `1e3`, `"\u0041"`, `-0`, "\"\x01\""} {
+		if jsonSafeForYAML(d) {
+			t.Errorf("%q accepted", d)
+		}
+	}
+}
+
 func TestIsDecimalFloat(t *testing.T) {
 	for _, s := range []string{"0", "-1", "+1.5", ".5", "5.", "1e3", "1E-3", "1.5e+10"} {
 		if !isDecimalFloat(s) {
